@@ -149,6 +149,20 @@ theorem update_pairs_valsOf (L l : List (K × V)) (k : K) :
     · subst e; simp [isK, hk]
     · simp [isK, e]
 
+/-- `update` with a mapping (assignment key after key) has the same closed form -/
+theorem update_mapping_eq (L m : List (K × V)) (hm : (dkeys m).Nodup) :
+    Spec.update L (.mapping m) [] = Spec.replaceBy L m := by
+  simp only [Spec.update, Spec.setAll, List.foldl_nil]
+  exact setAll_eq_replaceBy L m hm
+
+/-- an operation that raises leaves both pair lists as they were (and, by `inv_step`, every
+    read still agrees with them) -/
+theorem failed_op_changes_nothing (st : HState K V) (hi : HInv st) (op : HOp K V) (e : Err)
+    (h : (hstep st op).2 = .err e) : absH (hstep st op).1 = absH st := by
+  obtain ⟨h1, h2⟩ := refines_step st hi op
+  rw [h1]
+  exact spec_err_unchanged (absH st) op e (by rw [← h2]; exact h)
+
 /-! ## copies -/
 
 /-- `copy()`, `copy.copy`, `copy.deepcopy` and a pickle round trip (all: rebuild from
@@ -171,6 +185,52 @@ theorem eq_omd_iff [DecidableEq V] (s t : OMD K V) (hs : Inv s) (ht : Inv t) :
 theorem eq_mapping_iff [DecidableEq V] (s : OMD K V) (h : Inv s) (m : List (K × V)) (hm : (dkeys m).Nodup) :
     (∃ b, s.eqMapping m = .ok b ∧ (b = true ↔ ∀ k, dget k m = Spec.last k s.cells)) :=
   ⟨_, eqMapping_spec h m, spec_eqMapping_iff s.cells m hm⟩
+
+/-! ## derived dictionaries -/
+
+/-- `inverted()` is a consistent dictionary holding the swapped pairs in the same order -/
+theorem inverted_spec [DecidableEq V] (s : OMD K V) :
+    Inv s.inverted ∧ s.inverted.cells = s.cells.map (fun p => (p.2, p.1)) := fromPairs_spec _
+
+/-- `sorted(key, reverse)` is a consistent dictionary whose pairs are a permutation of the
+    original pairs … -/
+theorem sorted_perm (s : OMD K V) (le : K × V → K × V → Bool) (rev : Bool) :
+    Inv (s.sorted le rev) ∧ (s.sorted le rev).cells.Perm s.cells :=
+  ⟨(fromPairs_spec _).1, by rw [OMD.sorted, (fromPairs_spec _).2]; exact sortBy_perm _ _⟩
+
+/-- … in the order of the key function (ascending, or descending with `reverse`), whenever the
+    key function induces a total preorder `le` on pairs … -/
+theorem sorted_sorted (s : OMD K V) (le : K × V → K × V → Bool) (rev : Bool)
+    (htot : ∀ a b, le a b = true ∨ le b a = true)
+    (htr : ∀ a b c, le a b = true → le b c = true → le a c = true) :
+    (s.sorted le rev).cells.Pairwise (fun a b => flipIf rev le a b = true) := by
+  rw [OMD.sorted, (fromPairs_spec _).2]
+  exact sortBy_sorted _ (flipIf_total rev le htot) (flipIf_trans rev le htr) _
+
+/-- … and pairs that are already in that order stay as they are -/
+theorem sorted_of_sorted (s : OMD K V) (le : K × V → K × V → Bool) (rev : Bool)
+    (h : s.cells.Pairwise (fun a b => flipIf rev le a b = true)) : (s.sorted le rev).cells = s.cells := by
+  rw [OMD.sorted, (fromPairs_spec _).2]
+  exact sortBy_of_sorted _ _ h
+
+/-- `sortedvalues(key, reverse)` does not raise, gives a consistent dictionary with the same key
+    sequence, and every key's values are its old values sorted (a permutation, in the order of
+    the key function, ascending or descending with `reverse`) -/
+theorem sortedvalues_sorted (s : OMD K V) (h : Inv s) (le : V → V → Bool) (rev : Bool)
+    (htot : ∀ a b, le a b = true ∨ le b a = true)
+    (htr : ∀ a b c, le a b = true → le b c = true → le a c = true) :
+    ∃ r, s.sortedvalues le rev = (r, .unit) ∧ Inv r ∧ r.cells.map (·.1) = s.cells.map (·.1) ∧
+      ∀ k, (Spec.valsOf k r.cells).Perm (Spec.valsOf k s.cells) ∧
+           (Spec.valsOf k r.cells).Pairwise (fun a b => flipIf rev le a b = true) := by
+  obtain ⟨r, h1, h2, h3, h4⟩ := sortedvalues_spec h le rev
+  refine ⟨r, h1, h2, h3, fun k => ?_⟩
+  rw [h4 k]
+  refine ⟨(List.reverse_perm _).trans (sortBy_perm _ _), ?_⟩
+  rw [List.pairwise_reverse]
+  have := sortBy_sorted (flipIf (!rev) le) (flipIf_total _ le htot) (flipIf_trans _ le htr) (Spec.valsOf k s.cells)
+  refine this.imp ?_
+  intro a b hab
+  cases rev <;> simpa [flipIf] using hab
 
 /-! ## non-vacuity: concrete histories and states the theorems speak about -/
 
@@ -195,6 +255,10 @@ example : Spec.keys [(2, 3), (3, 0), (3, 1), (1, 7), (1, 1), (2, 3)] = [2, 3, 1]
 example : Spec.items [(2, 3), (3, 0), (3, 1), (1, 7), (1, 1), (2, 4)] = [(2, 4), (3, 1), (1, 1)] := by decide
 example : (OMD.fromPairs [(0, 1), (1, 2), (0, 3)] : OMD Nat Nat).eqMapping [(1, 2), (0, 3)] = .ok true := rfl
 example : (OMD.fromPairs [(0, 1), (1, 2), (0, 3)] : OMD Nat Nat).eqMapping [(1, 2), (0, 1)] = .ok false := rfl
+example : ((OMD.fromPairs [(1, 2), (0, 3), (1, 0), (0, 1), (1, 1)] : OMD Nat Nat).sortedvalues
+    (fun a b => decide (a ≤ b)) false).1.cells = [(1, 0), (0, 1), (1, 1), (0, 3), (1, 2)] := by decide
+example : ((OMD.fromPairs [(1, 2), (0, 3), (1, 0)] : OMD Nat Nat).sorted
+    (fun a b => decide (a.2 ≤ b.2)) true).cells = [(0, 3), (1, 2), (1, 0)] := by decide
 /-- a state that violates `Inv` (what `addlist(k, iterator)` used to produce): its reads disagree -/
 example : (⟨[(0, [])], [(0, 1), (0, 2)]⟩ : OMD Nat Nat).items = .error .indexError := rfl
 
